@@ -89,6 +89,9 @@ EX = [
     ('skipd_ownline', ">>> print(T({k},\n... # doctest: +SKIP\n...   'zz'))"),
     ('skipd_loopbody', ">>> for i in range(1):\n...     # doctest: +SKIP\n...     print(T({k}, 'zz'))"),
     ('nwsd_ownline', ">>> print(T({k},\n... # doctest: +NORMALIZE_WHITESPACE\n...   'a   b'))"),
+    # an old-style example that starts / ends with a comment line and whose compound statement echoes values
+    ('comment_loop_echo', ">>> # show the values\n... for i in range(2):\n...     T({k}, i + 1)"),
+    ('loop_echo_comment', ">>> for i in range(2):\n...     T({k}, i + 1)\n... # done"),
 ]
 EXD = dict(EX)
 SPECIAL_WANT = {'skipd_ownline': 'nope', 'skipd_loopbody': 'nope', 'nwsd_ownline': 'a b', 'dir_space_skip': 'nope', 'ied_nested': 'Traceback (most recent call last):\nJSONDecodeError: whatever',
